@@ -90,7 +90,7 @@ def cases(tier, rng):
 def nontrivial(case, out):
     return 'SFired' in out
 
-STAGES = [dict(name='merge', mode='app', coq='Check.C04c', cases=cases, nontrivial=nontrivial, shard=8,
+STAGES = [dict(name='merge', mode='app', coq='Check.C04c', profile=('Proofs.JudgeC04P', 'JudgeC04P.profile_C04b', 'C04_app_judgement_sound / C04_app_judgement_transfer'), cases=cases, nontrivial=nontrivial, shard=8,
                exhaustive={'thorough': True, 'quick': True},
                rule='non-consuming actions of all four output types and both accumulation modes. Exhaustive: every assignment of own state in {None, Ongoing, Fired} (scripted explicit condition) and value in '
                     '{-1, 0, 1/2, 1} (scripted modifier) to 1-2 (quick) / 1-3 (thorough, sampled to 1800) inputs, one assignment per frame; condition-less and mixed variants; pairs of values of every dimension '
